@@ -171,6 +171,10 @@ def run_layout(prop, tier, replay):
         # an assembler nobody here wrote: LLVM 14 on the same programs (no -c, no relaxation): bytes and label addresses
         from harness import llvmx
         rep.count('programs_compared_with_llvm', llvmx.program_check(rep, prop, tier))
+    if prop == 'C03':
+        # the programs the repository ships (examples/, with the definitions directory): model = implementation
+        nex, exdiff = corr.examples_check(rep, prop)
+        corr_diff += [dict(program='examples/' + e['example'], lines=[], compress=e['compress'], model=e['model'], impl=e['impl']) for e in exdiff]
     rep.cov['model_vs_impl_disagreements'] = len(corr_diff)
     if not rep.violations and ob['failed']:
         rep.violation('proof obligation no longer checks: {} ({})'.format(ob['failed'][0][0], ob['failed'][0][1][:300]),
